@@ -912,6 +912,9 @@ class CallMixin:
                 first = fresh_name("first")
                 self.declare(first, "Int")
                 s_ok.assume(f"(=> (> (seq.len {rs}) 0) (and (<= 0 {first}) (< {first} (seq.len {sq})) {at(passes, first)} (= (seq.nth {rs} 0) {elt_term(first)}) (forall (({q} Int)) (=> (and (<= 0 {q}) (< {q} {first})) {Not(pq)}))))")
+                # every passing index contributes a member
+                pp, qq = fresh_name("pp"), fresh_name("qq")
+                s_ok.assume(f"(forall (({pp} Int)) (! (=> (and (<= 0 {pp}) (< {pp} (seq.len {sq})) {at(passes, pp)}) (exists (({qq} Int)) (and (<= 0 {qq}) (< {qq} (seq.len {rs})) (= (seq.nth {rs} {qq}) {elt_term(pp)})))) :pattern ((seq.nth {sq} {pp}))))")
                 # at least two members iff two distinct indices pass
                 p1, p2 = fresh_name("p1"), fresh_name("p2")
                 s_ok.assume(Eq(f"(>= (seq.len {rs}) 2)", f"(exists (({p1} Int) ({p2} Int)) (and (<= 0 {p1}) (< {p1} {p2}) (< {p2} (seq.len {sq})) {at(passes, p1)} {at(passes, p2)}))"))
